@@ -79,6 +79,12 @@ class World:
                         break
                 c = gen.basis_circuit(bits)
                 kind = "basis"
+                if wide and r.random() < 0.7:
+                    # randomness on the LOWEST-numbered qubits of a register wider than a byte: shots then differ
+                    # only in positions that 8-bit arithmetic on outcome codes would drop
+                    for q in r.sample(range(n - 8), r.randint(1, n - 8)):
+                        c["ops"].append({"gate": r.choice([{"g": "H"}, {"g": "RY", "p": [r.uniform(0.4, 2.6)]}]), "q": [q]})
+                    kind = "wide-superposed"
             else:
                 c = gen.rand_circuit(r, n, r.randint(1, 8), wrappers=0.2, powexp=False, custom=0.05, exclude=["U3", "MyNonUnitary"],
                                      phase_ops=0.1, max_arity=3, rich=False)
@@ -101,6 +107,16 @@ class World:
                 "op": "deficit", "args": {"n": nd, "d": r.uniform(2e-6, 8e-6), "state_seed": r.getrandbits(30),
                                           "samples": r.choice([2 ** nd + 1, 20000, 150000, 300000]), "seed": r.choice([None, 7]),
                                           "last_in_support": r.random() < 0.3},
+                "client": 0, "rs": r.getrandbits(32)})
+        if r.random() < 0.15:
+            nd = r.choice([2, 3, 3, 4])
+            while True:
+                bits = [r.randint(0, 1) for _ in range(nd)]
+                if bits != bits[::-1]:
+                    break
+            steps.insert(r.randrange(len(steps) + 1), {
+                "op": "deficit", "args": {"bits": bits, "q": r.randrange(nd), "sim": r.randrange(4), "small": r.choice([1, 2, 2 ** nd]),
+                                          "big": r.choice([2 ** nd + 1, 3 * 2 ** nd])},
                 "client": 0, "rs": r.getrandbits(32)})
         cfg["n"] = n_run
         return {"format": 1, "property": PID, "world": "runners", "seed": seed, "config": cfg, "steps": steps}
@@ -131,7 +147,40 @@ class World:
     def cleanup(self, st):
         st["rng"].restore()
 
+    def _do_deficit_runner(self, ctx, st, step, a):
+        """The same situation reached through a runner: a custom gate typed in with six digits leaves a state that
+        the Wavefunction class accepts and numpy's sampler refuses.  run_and_measure may fail; if it answers, the
+        outcomes must be outcomes of THIS state, qubit for qubit (the state is asymmetric under bit reversal)."""
+        bits, q = list(a["bits"]), a["q"]
+        n = len(bits)
+        spec = gen.basis_circuit(bits)
+        spec["ops"].append({"gate": {"custom": "MyRoundedH"}, "q": [q]})
+        circ = gen.build_circuit(spec)
+        sim = st["sims"][a["sim"] % len(st["sims"])]
+        st["rng"].begin_step(step["rs"])
+        allowed = set()
+        for b in (0, 1):
+            t = list(bits)
+            t[q] = b
+            allowed.add(tuple(t))
+        for ns in (a["small"], a["big"]):
+            ok, res = call(sim.run_and_measure, circ, ns)
+            ctx.called("run_and_measure[deficit]")
+            if not ok:
+                ctx.probe("deficit-sampling-refused")
+                continue
+            ctx.probe("deficit-sampling-answered")
+            with judge(ctx):
+                for t in res.bitstrings:
+                    t = tuple(int(b) for b in t)
+                    ctx.check(t in allowed, "refine", "zero-probability-outcome",
+                              lambda: f"{type(sim).__name__} sampled {t} ({ns} shots) from X-pattern {bits} + six-digit Hadamard on qubit {q}: "
+                                      f"only {sorted(allowed)} have non-zero probability")
+        ctx.log("deficit", "runner", n=n)
+
     def _do_deficit(self, ctx, st, step, a):
+        if "bits" in a:
+            return self._do_deficit_runner(ctx, st, step, a)
         """A state the Wavefunction class accepts although its probabilities sum to 1 - d (d within the class's own
         tolerance), sampled MANY times.  The sampler may refuse it (numpy's choice does); if it answers, every outcome
         must still have non-zero exact probability - nothing may land where the amplitude is exactly zero."""
@@ -319,7 +368,7 @@ class World:
     def shrink_step(self, s):
         a = s["args"]
         if s["op"] == "deficit":
-            if a["n"] > 1:
+            if "n" in a and a["n"] > 1:
                 yield {**s, "args": {**a, "n": a["n"] - 1}}
             return
         ops = a["c"]["ops"]
